@@ -67,7 +67,10 @@ def twice(f, shared, what='call'):
     return r1
 
 
-PRESENTATIONS = ['array', 'list', 'series', 'readonly', 'strided']
+class _SubArray(np.ndarray):
+    pass
+
+PRESENTATIONS = ['array', 'list', 'series', 'readonly', 'strided', 'subclass']
 
 def present(x, mode):
     """the same sample values handed over as another legal container / memory layout"""
@@ -79,6 +82,8 @@ def present(x, mode):
         y = x.copy(); y.flags.writeable = False; return y
     if mode == 'strided':
         buf = np.empty(2 * len(x), dtype=x.dtype); buf[::2] = x; buf[1::2] = 12345; return buf[::2]
+    if mode == 'subclass':        # an ndarray subclass (np.memmap, a units array, ...): np.asarray(y) is a NEW object sharing y's memory
+        return x.copy().view(_SubArray)
     raise ValueError(mode)
 
 def pick_presentation(rng, p=0.3):
@@ -143,3 +148,62 @@ def raised_in_kernel(e):
         files.append(tb.tb_frame.f_code.co_filename); tb = tb.tb_next
     last_own = max([i for i, f in enumerate(files) if '/bycycle/' in f] or [-1])
     return any('/neurodsp/' in f for f in files[last_own + 1:])
+
+
+def layout_nd(a, k):
+    """the same 2-D / 3-D array of signals in another memory layout: 0 C-ordered, 1 Fortran-ordered, 2 read-only, 3 a strided view of a wider buffer"""
+    k = k % 4
+    if k == 1: return np.asfortranarray(a)
+    if k == 2:
+        b = a.copy(); b.flags.writeable = False; return b
+    if k == 3:
+        buf = np.full(a.shape[:-1] + (2 * a.shape[-1],), 7.5, dtype=a.dtype); buf[..., ::2] = a; return buf[..., ::2]
+    return a
+
+
+# ---------------------------------------------------------------- pristine-process references
+_pristine_pool = None
+
+def _pristine_task(modname, funcname, args, kwargs):
+    import importlib, warnings as _w
+    mod = importlib.import_module(modname)
+    f = mod
+    for part in funcname.split('.'):
+        f = getattr(f, part)
+    with _w.catch_warnings():
+        _w.simplefilter('ignore')
+        try:
+            return ('ok', f(*args, **kwargs))
+        except Exception as e:
+            return ('err', type(e).__name__ + ': ' + str(e)[:160])
+
+def _pristine_child(conn, modname, funcname, args, kwargs):
+    try:
+        conn.send(_pristine_task(modname, funcname, args, kwargs))
+    except Exception as e:          # (unpicklable result)
+        conn.send(('err', 'pristine child: ' + type(e).__name__ + ': ' + str(e)[:120]))
+    finally:
+        conn.close()
+
+_pristine_ctx = None
+
+def pristine(modname, funcname, *args, **kwargs):
+    """run `modname.funcname(*args, **kwargs)` in a process forked from a PRISTINE fork server (bycycle imported, nothing ever called): a reference
+    that no earlier call of this session can have influenced (module-level caches, memoised kernels, leaked settings). One non-daemonic process per
+    call (the callee may open its own worker pool)."""
+    global _pristine_ctx
+    import multiprocessing as mp, os as _os
+    if _pristine_ctx is None:
+        _os.environ.setdefault('MPLBACKEND', 'Agg')
+        _pristine_ctx = mp.get_context('forkserver')
+        _pristine_ctx.set_forkserver_preload(['numpy', 'pandas', 'bycycle', 'bycycle.features', 'bycycle.group', 'bycycle.plts', 'neurodsp.filt'])
+    parent, child = _pristine_ctx.Pipe(duplex=False)
+    pr = _pristine_ctx.Process(target=_pristine_child, args=(child, modname, funcname, args, kwargs), daemon=False)
+    pr.start(); child.close()
+    try:
+        res = parent.recv() if parent.poll(300) else ('err', 'pristine child: timeout')
+    except EOFError:
+        res = ('err', 'pristine child: died')
+    pr.join(10)
+    if pr.is_alive(): pr.kill()
+    return res
